@@ -16,7 +16,7 @@ from pyproj import CRS as PCRS
 from .common import fhex as _fhex, ints
 
 PROP_FILE = "Properties/C09.v"
-GEN = []
+GEN = ["GenC09"]
 RUN_FILES = ["Model/C09_run.v"]
 
 POS_TOL = 1e-6          # pixels: PROJ round-trip error bound granted to the positions
@@ -262,7 +262,7 @@ def check_pair(ctx, pair, obs_by_chunk, cases_out=None):
         bands = run.get("bands", 0)
         v0 = run_values(run, pair, r0)
         if r0["dtype"] != run["dtype"] or list(v0.shape) != ([bands] if bands else []) + [H, W]:
-            ctx.add_failure("C09.result_shape_dtype", "%s run %s gives shape %s dtype %s" % (pair["tag"], run, r0["shape"], r0["dtype"]),
+            ctx.add_failure("C09.result_dtype", "%s run %s on %s data gives shape %s dtype %s (required: the target shape and the dtype of the data)" % (pair["tag"], run, run["dtype"], r0["shape"], r0["dtype"]),
                             dict(rp, chunk=BIG_CHUNK, run=run))
             continue
         planes = [(v0[b], D * (b + 1) + b) for b in range(bands)] if bands else [(v0, D)]
@@ -303,7 +303,7 @@ def check_pair(ctx, pair, obs_by_chunk, cases_out=None):
                 continue
             a, bb = run_values(run, pair, r0), run_values(run, pair, r1)
             if a.shape != bb.shape or r0["dtype"] != r1["dtype"]:
-                ctx.add_failure("C09.chunk_invariance.shape", "%s run %s: shape/dtype %s/%s under chunk %d vs %s/%s" % (
+                ctx.add_failure("C09.chunk_invariance.dtype", "%s run %s: result shape/dtype %s/%s with PYTROLL_CHUNK_SIZE=%d but %s/%s in a single chunk" % (
                     pair["tag"], run, r1["shape"], r1["dtype"], chunk, r0["shape"], r0["dtype"]), dict(rp, chunk=chunk, run=run))
                 continue
             scale = max(1.0, float(np.nanmax(np.abs(a))) if np.isfinite(a).any() else 1.0)
@@ -644,6 +644,7 @@ def run(ctx):
         L4.append(coq_kernel_case(c, 0, o["nn"]))
         L4.append(coq_kernel_case(c, 1, o["bil"]))
         direct_oracle(ctx, c, o)
+        source_vs_binary(ctx, c, o)
     texts += [(n, tx, sh, "one_step_gradient_indices") for n, tx, sh in coq_files("c09_direct_idx", "search_case", "chk_indices", L3)]
     texts += [(n, tx, sh, "one_step_gradient_search nn/bil") for n, tx, sh in coq_files("c09_direct_kern", "kern_case", "chk_kernel", L4)]
     iobs = results[BIG_CHUNK]["interp"]
@@ -674,10 +675,40 @@ def run(ctx):
                      "the harness evaluates it per block and attributes every chunk-dependent pixel to it or to the index/interpolation step")
 
 
-def direct_oracle(ctx, c, o):
+def bits_equal(a, b):
+    a, b = np.array(a, dtype=np.float64), np.array(b, dtype=np.float64)
+    return a.shape == b.shape and np.array_equal(a.view(np.int64), b.view(np.int64))
+
+
+def source_vs_binary(ctx, c, o):
+    """_gradient_search.pyx cannot be recompiled here: its text, executed as Python by the driver, must give exactly
+    what the compiled module (which the Coq model matches bit for bit) gives; a difference is turned into a concrete
+    violation by the property oracle when the case is affine, else reported as a broken tie"""
+    src = o.get("src")
+    if not src or "error" in src:
+        if not any(b[0] == "correspondence:pyx source" for b in ctx.broken):
+            ctx.broken.append(("correspondence:pyx source", "_gradient_search.pyx can no longer be executed as Python: %s" % (src,)))
+        return
+    same = bits_equal(o["idx"][0], src["idx"][0]) and bits_equal(o["idx"][1], src["idx"][1]) and \
+        bits_equal(o["nn"], src["nn"]) and bits_equal(o["bil"], src["bil"])
+    ctx.count("pyx_source_cases")
+    if same:
+        return
+    n0 = len(ctx.failures)
+    direct_oracle(ctx, c, src, label="pyx_source", oracle="direct_src")
+    if len(ctx.failures) == n0 and not any(b[0] == "correspondence:pyx source vs compiled module" for b in ctx.broken):
+        ctx.broken.append(("correspondence:pyx source vs compiled module",
+                           "_gradient_search.pyx executed as Python differs from the compiled module on direct case mode %d (%dx%d source, %dx%d target)"
+                           % (c["mode"], c["nl"], c["np"], c["H"], c["W"])))
+
+
+def direct_oracle(ctx, c, o, label="", oracle="direct"):
     """affine synthetic cases (modes 0-2, 7) with finite targets: exact position or none; nn = containing pixel; bil = standard bilinear"""
     if c["mode"] not in (0, 1, 2, 7):
         return
+
+    def K(key):
+        return key + ("." + label if label else "")
     nl, np_ = c["nl"], c["np"]
     a, b = c["xl"][0], c["xp"][0]
     cc, e = c["yl"][0], c["yp"][0]
@@ -687,7 +718,7 @@ def direct_oracle(ctx, c, o):
     for k, (tx, ty) in enumerate(zip(c["dx"], c["dy"])):
         if not (math.isfinite(tx) and math.isfinite(ty)) or abs(tx) > 1e9:
             if o["idx"][1][k] == o["idx"][1][k]:
-                ctx.add_failure("C09.position.outside_valued", "direct: non-finite/huge target (%r,%r) gets an index" % (tx, ty), {"oracle": "direct", "case": c})
+                ctx.add_failure(K("C09.position.outside_valued"), "direct: non-finite/huge target (%r,%r) gets an index" % (tx, ty), {"oracle": oracle, "case": c})
                 return
             continue
         L = (b * (ty - y0) - e * (tx - x0)) / det
@@ -696,24 +727,24 @@ def direct_oracle(ctx, c, o):
         outs = L < -1e-9 or L > nl - 1 + 1e-9 or P < -1e-9 or P > np_ - 1 + 1e-9
         gy, gx = o["idx"][1][k], o["idx"][0][k]
         if ins and not (gy == gy and abs(gy - L) < 1e-9 and abs(gx - P) < 1e-9):
-            ctx.add_failure("C09.position.inexact" if gy == gy else "C09.position.inside_missing",
-                            "direct affine case: target at source (%.6f,%.6f) of a %dx%d grid gets index (%r,%r)" % (L, P, nl, np_, gy, gx), {"oracle": "direct", "case": c})
+            ctx.add_failure(K("C09.position.inexact" if gy == gy else "C09.position.inside_missing"),
+                            "direct affine case: target at source (%.6f,%.6f) of a %dx%d grid gets index (%r,%r)" % (L, P, nl, np_, gy, gx), {"oracle": oracle, "case": c})
             return
         if outs and gy == gy:
-            ctx.add_failure("C09.position.outside_valued", "direct affine case: target at source (%.6f,%.6f) outside the %dx%d grid gets index (%r,%r)"
-                            % (L, P, nl, np_, gy, gx), {"oracle": "direct", "case": c})
+            ctx.add_failure(K("C09.position.outside_valued"), "direct affine case: target at source (%.6f,%.6f) outside the %dx%d grid gets index (%r,%r)"
+                            % (L, P, nl, np_, gy, gx), {"oracle": oracle, "case": c})
             return
         if ins:
             tie = abs(L - math.floor(L) - 0.5) < 1e-9 or abs(P - math.floor(P) - 0.5) < 1e-9
             vn, vb = o["nn"][k], o["bil"][k]
             if not tie and vn != D[int(round(L)), int(round(P))]:
-                ctx.add_failure("C09.nn_value", "direct affine case: nn at source (%.6f,%.6f) gives %r, pixel value %r" % (L, P, vn, D[int(round(L)), int(round(P))]),
-                                {"oracle": "direct", "case": c})
+                ctx.add_failure(K("C09.nn_value"), "direct affine case: nn at source (%.6f,%.6f) gives %r, pixel value %r" % (L, P, vn, D[int(round(L)), int(round(P))]),
+                                {"oracle": oracle, "case": c})
                 return
             eb = float(std_bilinear(D, np.array([L]), np.array([P]))[0])
             if not abs(vb - eb) <= 1e-9 * max(1.0, float(np.max(np.abs(D)))):
-                ctx.add_failure("C09.bilinear_value", "direct affine case: bilinear at source (%.6f,%.6f) gives %r, standard bilinear %r" % (L, P, vb, eb),
-                                {"oracle": "direct", "case": c})
+                ctx.add_failure(K("C09.bilinear_value"), "direct affine case: bilinear at source (%.6f,%.6f) gives %r, standard bilinear %r" % (L, P, vb, eb),
+                                {"oracle": oracle, "case": c})
                 return
 
 
@@ -727,6 +758,9 @@ def replay(ctx, data):
     elif case.get("oracle") == "direct":
         o = ctx.impl("c09", {"direct": [case["case"]]})["direct"][0]
         direct_oracle(ctx, case["case"], o)
+    elif case.get("oracle") == "direct_src":
+        o = ctx.impl("c09", {"direct": [case["case"]]})["direct"][0]
+        source_vs_binary(ctx, case["case"], o)
     elif "pair" in case:
         p = case["pair"]
         obs = {}
